@@ -41,7 +41,7 @@ def _stmt(i, n, ref):
             kv.append("mode=" + n["mode"])
     elif n["kind"] == "add":
         kv.append("k=%d" % n["k"])
-    elif n["kind"] in ("delay", "echo", "tdelay"):
+    elif n["kind"] in ("delay", "echo", "tdelay", "techo"):
         kv.append("d=%d" % n["k"])
     elif n["kind"] == "timer":
         kv.append("p=%d cnt=%d" % (n["k"], n["cnt"]))
